@@ -416,14 +416,17 @@ def bool_locals(g) -> List[str]:
     return sorted(k for k, ok in vals.items() if ok)
 
 
-def fpath(g, srcs, dsts, avoid=(), exc: bool = False, strict: bool = True) -> Optional[List[int]]:
+def fpath(g, srcs, dsts, avoid=(), exc: bool = False, strict: bool = True, through=None) -> Optional[List[int]]:
     """Like ``avoiding_path`` but path-sensitive in the function's boolean flag locals
     (``finished = False ... if finished:``): a test on such a flag only follows the edge that
-    agrees with the value the flag was last assigned on this very path."""
+    agrees with the value the flag was last assigned on this very path.
+    ``through``: when given, a destination only counts once the path has visited one of these nodes
+    (the flag values are carried across, unlike two separate searches)."""
     flags = bool_locals(g)
     idx = {f: i for i, f in enumerate(flags)}
     avoid, dsts = set(avoid), set(dsts)
-    start_val = tuple([None] * len(flags))
+    through = set(through) if through is not None else None
+    start_val = tuple([None] * len(flags)) + (through is None,)
 
     def step_val(nid, val):
         n = g.node(nid)
@@ -440,7 +443,7 @@ def fpath(g, srcs, dsts, avoid=(), exc: bool = False, strict: bool = True) -> Op
             return [s]
         if not strict and s in avoid:
             continue  # inclusive start: the path already passes an `avoid` node
-        k = (s, start_val)
+        k = (s, start_val[:-1] + (True,)) if (through is not None and s in through) else (s, start_val)
         if k not in prev:
             prev[k] = None
             dq.append(k)
@@ -457,7 +460,9 @@ def fpath(g, srcs, dsts, avoid=(), exc: bool = False, strict: bool = True) -> Op
                 if cur is not None and cur != (l == "T"):
                     continue
                 nv = out_val[:idx[na.ast.id]] + ((l == "T"),) + out_val[idx[na.ast.id] + 1:]
-            if b in dsts:
+            if through is not None and b in through:
+                nv = nv[:-1] + (True,)
+            if b in dsts and nv[-1]:
                 out = [b, a]
                 k = (a, val)
                 while prev[k] is not None:
